@@ -54,6 +54,35 @@ pub enum LabelKind {
 
 pub const WEIGHTS: [f32; 4] = [0.5, 1.0, 2.0, 4.0];
 
+/// How a per-row weight code becomes the base weight (before the global scale factor).
+#[derive(Debug, Clone, Copy, Serialize, Deserialize, PartialEq, Eq, Default)]
+pub enum WKind {
+    /// 0.5 / 1 / 2 / 4 (code mod 4): sums are exact in f32
+    #[default]
+    Dyadic,
+    /// (20 + code mod 101) / 61 rounded to f32: 0.33 .. 1.97, not dyadic, sums round
+    Real,
+    /// 1 + {0,1,2,3,8,21,42,84} ulps (code mod 8): class totals of equal counts differ by 1 ulp .. 1e-5 relative
+    NearTie,
+}
+pub const NEAR_TIE_ULPS: [u32; 8] = [0, 1, 2, 3, 8, 21, 42, 84];
+
+/// global weight factors; index 0 is 1 (also the serde default), 1..=5 powers of two (dyadic weights
+/// stay exact), 6..=10 decimal factors 1e-9 .. 1e6 (every sum rounds)
+pub const SCALES: [f64; 11] = [
+    1.0,
+    9.313225746154785e-10, // 2^-30
+    9.5367431640625e-7,    // 2^-20
+    0.0009765625,          // 2^-10
+    1024.0,
+    1048576.0,
+    1e-9,
+    1e-6,
+    1e-3,
+    1e3,
+    1e6,
+];
+
 /// Memory layout of a records array handed to linfa. The logical rows are the same in every layout.
 #[derive(Debug, Clone, Copy, Serialize, Deserialize, PartialEq, Eq, Default)]
 pub enum Layout {
@@ -89,6 +118,12 @@ pub struct Case {
     pub min_impurity_decrease: f64,
     /// query rows (codes in half steps / ulps − 1), p codes each
     pub queries: Vec<Vec<u8>>,
+    /// how weight codes are decoded
+    #[serde(default)]
+    pub wkind: WKind,
+    /// index into `SCALES`: global factor applied to every sample weight
+    #[serde(default)]
+    pub wscale: u8,
     /// memory layout of the training records (also used when predicting the training rows)
     #[serde(default)]
     pub layout: Layout,
@@ -159,13 +194,38 @@ impl Case {
     pub fn q(&self) -> Vec<Vec<f64>> {
         (0..self.queries.len()).map(|i| (0..self.p()).map(|j| self.qvalue(i, j)).collect()).collect()
     }
-    pub fn w(&self) -> Vec<f64> {
+    pub fn scale(&self) -> f64 {
+        if self.weights.is_some() {
+            SCALES[self.wscale as usize % SCALES.len()]
+        } else {
+            1.0
+        }
+    }
+    /// the f32 sample weights exactly as they are handed to linfa
+    pub fn w32(&self) -> Vec<f32> {
+        let s = self.scale() as f32;
         match &self.weights {
             None => vec![1.0; self.n()],
             Some(ix) => (0..self.n())
-                .map(|i| WEIGHTS[(ix.get(i).copied().unwrap_or(1) as usize) % 4] as f64)
+                .map(|i| {
+                    let code = ix.get(i).copied().unwrap_or(1) as usize;
+                    let base = match self.wkind {
+                        WKind::Dyadic => WEIGHTS[code % 4],
+                        WKind::Real => ((20 + code % 101) as f64 / 61.0) as f32,
+                        WKind::NearTie => f32::from_bits(1.0f32.to_bits() + NEAR_TIE_ULPS[code % 8]),
+                    };
+                    base * s
+                })
                 .collect(),
         }
+    }
+    /// the same weights widened to f64 (exact)
+    pub fn w(&self) -> Vec<f64> {
+        self.w32().into_iter().map(|v| v as f64).collect()
+    }
+    /// every partial sum of the weights is exact in f32 (dyadic weights times a power of two)
+    pub fn weights_exact(&self) -> bool {
+        self.weights.is_none() || (self.wkind == WKind::Dyadic && (self.wscale as usize % SCALES.len()) <= 5)
     }
     pub fn has_adjacent(&self) -> bool {
         self.cols.iter().any(|c| matches!(c, Col::Adj { base } if adj_above_guard(*base)))
